@@ -36,6 +36,10 @@ BOUNDS = {
     "quick": {
         "A": {"depth": 3, "ids": [1, 11, 2], "pids": [1, 11], "statuses": [200, 404, 403, 500], "ops": "all 8",
               "override_shapes": "all/some/none on the newest step, 'all' on earlier link-derived steps"},
+        # deeper trees over a narrow alphabet: a DELETE that hangs below a non-root ancestor of the judged request
+        # (sibling under a non-root parent, cousin below an intermediate ancestor) needs four steps
+        "C": {"depth": 4, "ids": [1, 11], "pids": [1], "statuses": [200, 404], "earlier_statuses": [200],
+              "ops": [0, 1, 3, 5], "override_shapes": "all/some/none on the newest step, 'all' on earlier link-derived steps"},
     },
     "thorough": {
         "A": {"depth": 3, "ids": [1, 11, 2], "pids": [1, 11, 2], "statuses": [200, 302, 404, 403, 500], "ops": "all 8",
@@ -161,7 +165,7 @@ def family_config(tier: str, family: str) -> dict:
         "depth": b["depth"], "ids": b["ids"], "pids": b["pids"], "statuses": b["statuses"],
         # statuses of steps that are extended further (the newest step of every judged history uses `statuses`)
         "earlier_statuses": b.get("earlier_statuses", b["statuses"]),
-        "ops": [i for i in range(len(OPS)) if not (b["ops"] == "all but PUT" and i == 2)],
+        "ops": list(b["ops"]) if isinstance(b["ops"], list) else [i for i in range(len(OPS)) if not (b["ops"] == "all but PUT" and i == 2)],
         "shapes_on_newest_only": b["override_shapes"].startswith("all/some/none on the newest step"),
     }
 
